@@ -16,7 +16,7 @@ func init() { register(c06{}) }
 
 func (c06) ID() string { return "C06" }
 func (c06) Cases(t fw.Tier) int {
-	return tierN(t, 15000, 500000)
+	return tierN(t, 50000, 1500000)
 }
 func (c06) Race(t fw.Tier) bool { return false }
 func (c06) Rule() string {
